@@ -1265,7 +1265,7 @@ def all_specs(split_ok):
             for fields in (('none', 'all') if (K == 2 and split) else ('none', 'static', 'all')):
                 for cache in (False, True):
                     for interp in ('linear', 'parabola'):
-                        for scale in ('small', 'mjd'):
+                        for scale in (('small',) if (K == 2 and not split) else ('small', 'mjd')):
                             specs.append(dict(K=K, split=split, fields=fields, cache=cache, interp=interp, scale=scale))
     return specs
 
@@ -1493,7 +1493,7 @@ def run(ctx):
                 for sp in i3_specs()]
     for i, sp in enumerate(i3_specs()):
         i3_cases += probe_cases(sp, i) + probe_cases(sp, i + 1)[1:4]
-        i3_cases += [gen_case(ctx, sp, maxlen) for _ in range(ctx.n(4, 100))]
+        i3_cases += [gen_case(ctx, sp, maxlen) for _ in range(ctx.n(3, 100))]
     import collections
     stats = {'floats': 0, 'bit_exact': 0, 'branches': collections.Counter()}
     import time as _time
